@@ -99,6 +99,8 @@ def optimal_clone(
     :return: The optimal probability with of counterfeiting quantum money.
 
     """
+    # State vectors may be given as 1-D arrays; the outer products below need column vectors.
+    states = [state.reshape(-1, 1) if np.ndim(state) == 1 else state for state in states]
     dim = len(states[0]) ** 3
 
     # Construct the following operator:
